@@ -624,6 +624,15 @@ func runC06(c *Ctx) {
 		c.run("dispseq", map[string]string{"script": genDispScript(c.Rng, 8+c.Rng.Intn(25)), "recover": "1"})
 		c.R.Traces++
 	}
+	// events (echoes among them) queued behind a busy foreground handler when Close() is called: the flush path
+	for i := 0; i < 3+c.Scale; i++ {
+		var ks []string
+		for k := 4 + c.Rng.Intn(14); k > 0; k-- {
+			ks = append(ks, c.Rng.Pick([]string{"P0", "P1", "P1", "N0", "N1"}))
+		}
+		c.run("dispflush", map[string]string{"events": strings.Join(ks, ","), "self": c.Rng.Pick([]string{"me", "ME", "Me"})})
+		c.R.Traces++
+	}
 	// registrars acting while events stream
 	for i := 0; i < 6*c.Scale; i++ {
 		c.run("dispconc", map[string]string{"events": fmt.Sprint(30 + c.Rng.Intn(60)), "ops": fmt.Sprint(10 + c.Rng.Intn(40)), "seed": fmt.Sprint(c.Rng.Intn(1 << 30))})
